@@ -20,6 +20,14 @@ Case kinds
          one process.  oracle: ends in time with success or ColangParsingError naming a file; the loaded flows are exactly the
          flows of the files of the tree (composition); the edit does not change them; a second load gives the same result.
          model: `ImportLoop.fromPath` (the import fix-point and the parse loop) on the world read off the tree.
+  str    every STRING FORM of Colang 2.x (STRING / LONG_STRING of both quote kinds, single- and multi-line, lone quotes of the other
+         kind, escapes, `#`, interpolations, line tails of 30-200 characters; COMMENT forms) in every position where a string may
+         stand, plus a layout variant (harness/impl/c13_str.py); also: such programs with one quote character mutated, and "pumped"
+         lines (one short text x 30-60 + a breaking character) in every kind of place of a 2.x / 1.0 file.  Loaded with
+         `RailsConfig.from_path` in ONE forked child under a CPU-time limit: a decoy configuration, the program, the variant, the
+         program again.  oracle: ends in time with success or ColangParsingError naming the file; loads exactly the flows it defines;
+         the variant changes neither the flows nor the comment-free `source_code`; the second load equals the first.
+         model: `CommentStrip.strip` on every call `ColangTransformer._remove_source_code_comments` received.
   fmt    synthetic exception objects (with/without line/column, odd values) raised by a patched
          `parse_colang_file` inside the real `_parse_colang_files_recursively`; same oracle and model.
 """
@@ -57,11 +65,16 @@ RULE = ("layout cases: a source (one of the ~210 shipped .co files of the tree u
         "the standard library, the local modules, missing modules; repeated / circular / self imports; one edit of the tree from "
         "{import line written twice, import lines re-ordered, import copied to another file, config.yml entry twice / also as import, "
         "blank line / trailing blanks / end-of-line comment / CRLF at an import line}. "
+        "string forms: 1-3 flows of 1-5 statements, each a string (quote kind x single/triple x one-line/multi-line x 14 ingredients x long tail) in "
+        "one of 22 positions, comment lines / end-of-line comments, + one layout variant at a statement end; the same with one quote character "
+        "mutated; pumped lines (32 atoms + the bodies of flagged regex repeats, x 30-60, 11 breakers, 10 opening delimiters) in 21 places of a 2.x "
+        "and 26 of a 1.0 file; non-trivial = the program loads to at least one flow (pumps: the load ended). "
         "distinct = distinct case JSON.")
 TRUSTED_BASE = [
     "translator harness/translate/c13.py (colang.lark _NEWLINE / COMMENT / %ignore shapes, PythonIndenter constants, shape of the try/except and of the formatter)",
     "correspondence harness harness/props/C13.py (piece segmentation by the grammar's own lexer with dont_ignore; exception records) + Lean driver Drive/C13.lean",
     "translator harness/translate/c13imports.py (shape of _join_config's import_paths part, _load_imported_paths, the loop of _parse_colang_files_recursively, from_path) and the world extraction of harness/impl/c13_cfg.py (os.walk order, yaml import_paths, resolution rule) for Models/ImportLoop.lean",
+    "translator harness/translate/c13regex.py (shape and pattern of ColangTransformer._remove_source_code_comments for Models/CommentStrip.lean; the set of quote-initial terminals of colang.lark; static + dynamic inventory of the regexes run over file content with the nested-quantifier analysis) and the recording wrapper around _remove_source_code_comments (harness/impl/c13_str.py)",
     "Lark's LALR engine and ColangTransformer are functions of the token stream (types, texts of non-`_` terminals); the Colang 1.0 parser uses get_numbered_lines' indentation only through comparisons - both only searched, not proved",
 ]
 ASSUMPTIONS = [
@@ -2176,5 +2189,5 @@ def escalate(rng, focus, tier):
     nb = tr_rx.flagged_bodies(only_new=True)
     if nb:
         # a new / changed regex with a back-tracking shape: inputs aimed at that very repeat come first
-        cases = [strk.gen_pump_case(rng, nb * 20) for _ in range(300)] + cases
+        cases = [strk.gen_pump_case(rng, nb * 20) for _ in range(600)] + cases
     return comment_sweep_cases() + cont_sweep_cases() + pre_sweep_cases() + cases
